@@ -472,3 +472,306 @@ def run(c):
     stream_flat(c, c.n(30, 300))
     stream_tree(c, c.n(60, 1200), rational=True)
     stream_tree(c, c.n(40, 800), rational=False)
+    stream_isolation(c, c.n(40, 500))
+
+
+# ---------------------------------------------------------------------------------------------
+# (c) + (d) isolation: pairs of real transcriptions differing only in another member's data
+
+VALS = [0.0, 1.0, 2.0, 0.5, -1.0, 3.25, -0.75, 4.0]
+
+
+def pick_val(rng):
+    return rng.choice([0.0, 1.0]) if rng.random() < 0.25 else rng.choice(VALS)
+
+
+def gen_member_values(rng, E, n, gen):
+    """n values per member with forced coincidences between members"""
+    mode = rng.choice(["equal", "some", "distinct"])
+    rows = [[gen() for _ in range(n)] for _ in range(E)]
+    if mode == "equal":
+        rows = [list(rows[0]) for _ in range(E)]
+    elif mode == "some":
+        for m in range(1, E):
+            if rng.random() < 0.5:
+                rows[m] = list(rows[rng.randrange(m)])
+    return rows
+
+
+def gen_iso_data(rng, poly):
+    ts = gen_grid(rng, 2, 5)
+    n = len(ts)
+    E = rng.choice([2, 2, 3, 3, 4])
+    nx = rng.choice([1, 1, 2])
+    npar = rng.choice([1, 2, 3])
+    nc = rng.choice([1, 2])
+    nu = rng.choice([1, 2])
+    states = ["x%d" % j for j in range(nx)]
+    algs = ["y%d" % i for i in range(npar)]  # one witness per parameter: y_i = p_i * x0 + p_i
+    controls = ["u%d" % j for j in range(nu)]
+    cinputs = ["c%d" % j for j in range(nc)]
+    params = ["p%d" % i for i in range(npar)]
+    d = lambda: rng.choice([1.0, -1.0, 2.0, 0.5, -0.25, 3.0])  # noqa: E731
+    eqs = []
+    for j, x in enumerate(states):
+        row = [(1.0, ("der(%s)" % x,)), (1.0, (params[j % npar], x)), (-1.0, (controls[j % nu],)),
+               (-d(), (cinputs[j % nc],))]
+        if rng.random() < 0.5:
+            row.append((d(), (params[rng.randrange(npar)], cinputs[rng.randrange(nc)])))
+        if rng.random() < 0.5:
+            row.append((d(), (rng.choice(states),)))
+        if rng.random() < 0.4:
+            row.append((d(), (params[rng.randrange(npar)], rng.choice(controls))))
+        if rng.random() < 0.3:
+            row.append((d(), ("time",)))
+        if poly:
+            row.append((d(), (x, rng.choice(states + controls))))
+        eqs.append(row)
+    for i, y in enumerate(algs):
+        eqs.append([(1.0, (y,)), (-1.0, (params[i], "x0")), (-1.0, (params[i],))])
+    pvals = gen_member_values(rng, E, npar, lambda: pick_val(rng))
+    hist_pts = rng.choice([0, 1, 2])
+    cin_times = [ts[0] - (hist_pts - j) * 0.5 for j in range(hist_pts)] + list(ts)
+    cin = {}
+    for cn in cinputs:
+        per = gen_member_values(rng, E, len(cin_times), lambda: pick_val(rng))
+        cin[cn] = per
+    # history (states and algebraics only: a shared control has one entry for all members)
+    hist = []
+    hmode = rng.choice(["none", "t0", "two", "two-nan"])
+    hvals = gen_member_values(rng, E, nx * 2, lambda: pick_val(rng))
+    for m in range(E):
+        h = {}
+        for j, x in enumerate(states):
+            if hmode == "t0":
+                h[x] = ([ts[0]], [hvals[m][2 * j]])
+            elif hmode == "two":
+                h[x] = ([ts[0] - 0.5, ts[0]], [hvals[m][2 * j + 1], hvals[m][2 * j]])
+            elif hmode == "two-nan":
+                h[x] = ([ts[0] - 0.5, ts[0]], [hvals[m][2 * j + 1], float("nan")])
+        hist.append(h)
+    nom = {}
+    if rng.random() < 0.5:
+        for v in states[1:] + controls:
+            nom[v] = rng.choice([1.0, 10.0, 0.01, 4.0])
+    probs = [rng.choice([0.125, 0.25, 0.5, 1.0, 0.375]) for _ in range(E)]
+    # user functions (member specific bounds / expressions)
+    pobj = [(d(), ("x0",)), (d(), (controls[0],)), (d(), ("der(x0)",)), (d(), (params[0],)),
+            (d(), (cinputs[0], "x0"))]
+    if poly:
+        pobj.append((d(), ("x0", "x0")))
+    obj = [[(7.0, (("at", "x0", n - 1),)), (d(), (("at", controls[0], rng.randrange(n)),)),
+            (d(), (("par", params[0]), ("at", states[-1], rng.randrange(n))))] for m in range(E)]
+    pc_rows = [[(1.0, ("x0",)), (1.0, (controls[0],))], [(1.0, (algs[0],)), (2.0, (states[-1],)), (d(), (params[-1],))]]
+    pcb = gen_member_values(rng, E, 4, lambda: pick_val(rng))
+    pc_kind = rng.choice(["scalar", "ts"])
+    pc_ts = gen_member_values(rng, E, n, lambda: pick_val(rng))
+    ptb = gen_member_values(rng, E, 2, lambda: pick_val(rng))
+    return dict(ts=ts, E=E, states=states, algs=algs, controls=controls, cinputs=cinputs, params=params,
+                eqs=eqs, pvals=pvals, cin_times=cin_times, cin=cin, hist=hist, nom=nom, probs=probs,
+                pobj=pobj, obj=obj, pc_rows=pc_rows, pcb=pcb, pc_kind=pc_kind, pc_ts=pc_ts, ptb=ptb,
+                theta=rng.choice([1.0, 1.0, 1.0, 0.5, 0.0]), poly=poly)
+
+
+def iso_spec(dt):
+    n = len(dt["ts"])
+
+    def path_constraints(m):
+        lo0 = ("ts", dt["ts"], [v - 8.0 for v in dt["pc_ts"][m]]) if dt["pc_kind"] == "ts" else dt["pcb"][m][0] - 8.0
+        return [([dt["pc_rows"][0]], lo0, dt["pcb"][m][1] + 8.0),
+                ([dt["pc_rows"][1]], dt["pcb"][m][2] - 8.0, dt["pcb"][m][3] + 8.0)]
+
+    def constraints(m):
+        return [([[(1.0, (("at", "x0", 0),)), (-1.0 * m, ())]], dt["ptb"][m][0] - 5.0, dt["ptb"][m][1] + 5.0),
+                ([[(1.0, (("at", dt["algs"][0], n - 1),)), (1.0, (("at", dt["controls"][0], n - 1),))]],
+                 -6.0 - dt["ptb"][m][1], 6.0 + dt["ptb"][m][0])]
+
+    return Spec(times=dt["ts"], states=dt["states"], algs=dt["algs"], controls=dt["controls"],
+                cinputs=dt["cinputs"], params=dt["params"], eqs=dt["eqs"], E=dt["E"], pvals=dt["pvals"],
+                cin_times=dt["cin_times"], cin=dt["cin"], hist=dt["hist"], nom=dt["nom"], probs=dt["probs"],
+                theta=dt["theta"], bnds={u: (-10.0, 10.0) for u in dt["controls"]},
+                objective=lambda m: dt["obj"][m], path_objective=dt["pobj"],
+                constraints=constraints, path_constraints=path_constraints)
+
+
+def perturb_other(rng, dt, mstar):
+    """a copy of the instance in which only member `mstar`'s data differ"""
+    d2 = copy.deepcopy(dt)
+    E = dt["E"]
+    others = [m for m in range(E) if m != mstar]
+    kinds = rng.sample(["param", "input", "history", "bounds", "prob"], rng.randint(1, 3))
+    done = []
+    for kind in kinds:
+        if kind == "param":
+            i = rng.randrange(len(dt["params"]))
+            old = dt["pvals"][mstar][i]
+            # move towards / away from a coincidence with another member, or to 0 / 1
+            cands = [dt["pvals"][m][i] for m in others] + [0.0, 1.0, old + 1.5]
+            new = rng.choice([v for v in cands if v != old] or [old + 1.5])
+            d2["pvals"][mstar][i] = new
+        elif kind == "input":
+            cn = rng.choice(dt["cinputs"])
+            src = rng.choice(others)
+            vals = list(dt["cin"][cn][src]) if rng.random() < 0.5 else [pick_val(rng) for _ in dt["cin_times"]]
+            if vals == dt["cin"][cn][mstar]:
+                vals = [v + 1.0 for v in vals]
+            d2["cin"][cn][mstar] = vals
+        elif kind == "history":
+            if dt["hist"][mstar]:
+                x = rng.choice(sorted(dt["hist"][mstar]))
+                tsx, vs = dt["hist"][mstar][x]
+                d2["hist"][mstar][x] = (list(tsx), [(v + 1.0 if v == v else v) for v in vs])
+            else:
+                d2["hist"][mstar] = {"x0": ([dt["ts"][0]], [pick_val(rng)])}
+        elif kind == "bounds":
+            d2["pcb"][mstar] = [v + rng.choice([1.0, -1.0, 0.5]) for v in dt["pcb"][mstar]]
+            d2["pc_ts"][mstar] = [v + 1.0 for v in dt["pc_ts"][mstar]]
+            d2["ptb"][mstar] = [v + 0.5 for v in dt["ptb"][mstar]]
+        elif kind == "prob":
+            d2["probs"][mstar] = dt["probs"][mstar] / 2 if rng.random() < 0.5 else 1.0 - dt["probs"][mstar] / 4
+        done.append(kind)
+    return d2, done
+
+
+def owned_columns(tr, dt, m):
+    cols = set()
+    for v in dt["states"] + dt["algs"]:
+        cols.update(tr.idx(v, m))
+    for x in dt["states"]:
+        cols.update(tr.idx("initial_der(%s)" % x, m))
+    return cols
+
+
+def recover_params(tr, dt, A):
+    """effective value of parameter i in member m's rows, read off the witness rows
+    y_i - p_i x0 - p_i = 0 of the real (A, b): at every time index (initial residual and every
+    collocation step that is evaluated there)"""
+    E = dt["E"]
+    out = [[None] * len(dt["params"]) for _ in range(E)]
+    n = len(dt["ts"])
+    for m in range(E):
+        for i, y in enumerate(dt["algs"]):
+            yc, xc = tr.idx(y, m), tr.idx("x0", m)
+            vals = set()
+            for j in range(n):
+                for r in range(A.shape[0]):
+                    nz = set(np.nonzero(A[r])[0].tolist())
+                    if yc[j] in nz and nz <= {yc[j], xc[j]} and tr.lbg[r] == 0 and tr.ubg[r] == 0:
+                        vals.add(float(-A[r, xc[j]] / A[r, yc[j]]) + 0.0)
+            out[m][i] = sorted(vals)
+    return out
+
+
+def stream_isolation(c, N):
+    import casadi as ca
+
+    rng = c.rng
+    cls = syn_class(())
+    route_cases, route_lines = [], []
+    for q in range(N):
+        poly = rng.random() < 0.25
+        dt = gen_iso_data(rng, poly)
+        E = dt["E"]
+        mstar = 0 if rng.random() < 0.4 else rng.randrange(E)
+        d2, kinds = perturb_other(rng, dt, mstar)
+        view = dict(stream="isolation", changed_member=mstar, changed=kinds, base=dt, other=d2)
+        r1 = call(lambda: Transcription(cls(spec=iso_spec(dt))))
+        r2 = call(lambda: Transcription(cls(spec=iso_spec(d2))))
+        c.count(("iso", E, len(dt["params"]), tuple(kinds), poly, dt["theta"], len(dt["states"]),
+                 tuple(tuple(dt["pvals"][m][i] == dt["pvals"][0][i] for m in range(E)) for i in range(len(dt["params"])))))
+        c.programs += 1
+        c.hit("iso/" + ("poly" if poly else "affine"))
+        for kd in kinds:
+            c.hit("iso/changed-" + kd)
+        c.sample(dict(stream="isolation", changed_member=mstar, changed=kinds, E=E, pvals=dt["pvals"],
+                      pvals_other=d2["pvals"], theta=dt["theta"]), limit=6)
+        if r1[0] == "raise" or r2[0] == "raise":
+            c.fail("transcribe raised on a valid ensemble instance: %s" % (r1[1] if r1[0] == "raise" else r2[1]), view)
+            continue
+        t1, t2 = r1[1], r2[1]
+        if t1.N != t2.N or t1.ng != t2.ng:
+            c.fail("changing one member's data changed the problem size", view, (t1.N, t2.N, t1.ng, t2.ng))
+            continue
+        sp1, sp2 = t1.g_sparsity_rows(), t2.g_sparsity_rows()
+        own = {m: owned_columns(t1, dt, m) for m in range(E)}
+        if any(own[m] != owned_columns(t2, d2, m) for m in range(E)):
+            c.fail("changing one member's data changed the layout", view)
+            continue
+        row_owner = []
+        for r in range(t1.ng):
+            cols = sp1[r] | sp2[r]
+            ow = [m for m in range(E) if cols & own[m]]
+            row_owner.append(ow)
+        if any(len(ow) > 1 for ow in row_owner):
+            c.fail("a constraint row couples the private variables of two members", view,
+                   [r for r, ow in enumerate(row_owner) if len(ow) > 1][:5])
+            continue
+        c.hit("iso/unowned-rows", sum(1 for ow in row_owner if not ow))
+        aff1 = None if poly else t1.affine_g()
+        aff2 = None if poly else t2.affine_g()
+        probes = [np.array([rng.choice([rng.uniform(-2, 2), 0.0, 1.0]) for _ in range(t1.N)]) for _ in range(3)]
+        gv = [(t1.fg(X)[1], t2.fg(X)[1]) for X in probes]
+        gradf = []
+        for t in (t1, t2):
+            gradf.append(ca.Function("gf", [t.X], [ca.jacobian(t.nlp["f"], t.X)]))
+        for m in range(E):
+            if m == mstar:
+                continue
+            rows = [r for r, ow in enumerate(row_owner) if ow == [m]]
+            c.hit("iso/member-rows", len(rows))
+            bad = None
+            for r in rows:
+                if not (t1.lbg[r] == t2.lbg[r] and t1.ubg[r] == t2.ubg[r]):
+                    bad = ("bounds of row", r, t1.lbg[r], t2.lbg[r], t1.ubg[r], t2.ubg[r])
+                    break
+                if aff1 is not None and aff2 is not None:
+                    if not (np.allclose(aff1[0][r], aff2[0][r], rtol=1e-9, atol=1e-12)
+                            and np.isclose(aff1[1][r], aff2[1][r], rtol=1e-9, atol=1e-12)):
+                        bad = ("coefficients of row", r)
+                        break
+                for g1, g2 in gv:
+                    if not np.isclose(g1[r], g2[r], rtol=1e-9, atol=1e-10):
+                        bad = ("value of row at a probe", r, float(g1[r]), float(g2[r]))
+                        break
+                if bad:
+                    break
+            cols = sorted(own[m])
+            if bad is None:
+                for nm, a, b in (("lbx", t1.lbx, t2.lbx), ("ubx", t1.ubx, t2.ubx), ("x0", t1.x0, t2.x0)):
+                    if not np.array_equal(np.asarray(a)[cols], np.asarray(b)[cols], equal_nan=True):
+                        bad = (nm + " of the member's variables",)
+            if bad is None:
+                for X in probes:
+                    ga = np.array(gradf[0](X).full()).ravel()[cols]
+                    gb = np.array(gradf[1](X).full()).ravel()[cols]
+                    if not np.allclose(ga, gb, rtol=1e-9, atol=1e-12):
+                        bad = ("objective gradient w.r.t. the member's variables",)
+                        break
+            if bad is not None:
+                c.fail("member %d's NLP segment depends on member %d's data: %s differs" % (m, mstar, bad[0]),
+                       view, bad)
+        # (c) parameter routing, on both transcriptions
+        for dd, tt, aff in ((dt, t1, aff1), (d2, t2, aff2)):
+            if aff is None:
+                continue
+            rec = recover_params(tt, dd, aff[0])
+            route_cases.append((dd, rec, view))
+            route_lines.append(dict(op="route", P=[[fr(v) for v in row] for row in dd["pvals"]], dyn=[]))
+            for m in range(E):
+                for i in range(len(dd["params"])):
+                    if not rec[m][i]:
+                        c.hit("route/witness-missing")
+                    elif any(v != dd["pvals"][m][i] for v in rec[m][i]):
+                        c.fail("member %d is transcribed with parameter %s = %r instead of its own %r"
+                               % (m, dd["params"][i], rec[m][i], dd["pvals"][m][i]), view)
+    outs = c.model(route_lines)
+    if outs is not None:
+        for (dd, rec, view), mo in zip(route_cases, outs):
+            c.count(("route", tuple(map(tuple, dd["pvals"]))))
+            c.hit("route/compared")
+            for m in range(dd["E"]):
+                for i in range(len(dd["params"])):
+                    if rec[m][i] and any(Fraction(v) != Fraction(mo["eff"][m][i]) for v in rec[m][i]):
+                        c.disagree("effective parameter value", dict(pvals=dd["pvals"], m=m, i=i), mo["eff"], rec)
+            for i, isc in enumerate(mo["const"]):
+                c.hit("route/const" if isc else "route/ensemble")
